@@ -104,7 +104,7 @@ func TestC02(t *testing.T) {
 	r.Assume("the model Agglayer behaves like a permissive server and evaluates the acceptance checks A1-A5 itself (DESIGN.md 2.4)",
 		"liveness is judged as bounded progress: 6 fault-free rounds of verdict/status/epoch ticks at the end of a walk")
 	workers := runtime.NumCPU()
-	alphabet := []int{stL2Events, stL2Events, stL2Empty, stEpoch, stEpoch, stStatus, stAdvance, stInError, stFailBefore, stFailAfter, stL1Advance, stSettle}
+	alphabet := []int{stL2Events, stL2Events, stL2Empty, stEpoch, stEpoch, stStatus, stAdvance, stInError, stFailBefore, stFailAfter, stL1Advance, stSettle, stL2Reorg}
 	cfgs := []asNodeCfg{{RetryAfterInError: true}, {RetryAfterInError: false}, {RetryAfterInError: true, MaxCertSize: 4000}, {RetryAfterInError: false, MaxCertSize: 4000, KeepHistory: true},
 		{RetryAfterInError: true, FEP: true}, {RetryAfterInError: false, FEP: true}}
 
